@@ -530,6 +530,11 @@ def parse_mir(text):
                 data = bytearray()
                 relocs = False
                 ptr = None
+                if ln.rstrip().endswith("{}"):
+                    statics[sname] = {"alloc": aid, "size": size, "bytes": b"", "raw": b"", "ptr": None}
+                    statics[aid] = statics[sname]
+                    i += 1
+                    continue
                 i += 1
                 while i < n and not lines[i].startswith("}"):
                     body = lines[i]
